@@ -977,4 +977,33 @@ theorem selfClose_cases (mode : Mode) (accept : Bytes) (st : St) (chunk : Bytes)
       · refine Or.inr (Or.inr ⟨hc.1, hc.2, ?_⟩)
         exact closeDrain_oversize mode drainCount st' av' hc.1 (by have := hc.2; simp only [rxBuf, drainBuf] at *; omega)
 
+/-! ### rounds of the drain loop -/
+
+/-- the rounds of the drain loop: at most `count`, at least the number of `coap_ws_read` calls, and exactly `count`
+when the peer's Close frame is not seen -/
+theorem drainRounds_spec (mode : Mode) : ∀ (count : Nat) (st : St) (av : Bytes),
+    drainRounds mode count st av ≤ count ∧
+    (closeDrain mode count st av).2.2.2 ≤ drainRounds mode count st av ∧
+    ((closeDrain mode count st av).1 = false → drainRounds mode count st av = count) ∧
+    ((closeDrain mode count st av).1 = true → 1 ≤ drainRounds mode count st av) := by
+  intro count
+  induction count with
+  | zero => intro st av; simp [drainRounds, closeDrain]
+  | succ c ih =>
+    intro st av
+    rw [closeDrain, drainRounds]
+    by_cases h0 : av.length = 0
+    · simp only [if_pos h0]
+      have := ih st av
+      refine ⟨by omega, by omega, fun h => by have := this.2.2.1 h; omega, fun _ => by omega⟩
+    · simp only [if_neg h0]
+      generalize readFrame mode drainBuf (av.length + fsCap + 2) st av = r
+      obtain ⟨ret, st', av'⟩ := r
+      simp only
+      by_cases hr : recvCloseOf mode ret st' = true
+      · simp [hr]
+      · simp only [hr, Bool.false_eq_true, if_false]
+        have := ih st' av'
+        refine ⟨by omega, by omega, fun h => by have := this.2.2.1 h; omega, fun _ => by omega⟩
+
 end Coap
